@@ -602,4 +602,18 @@ theorem fairRoundT_of (hs : Sim P core cfg) (hl : LocT P S) (draws : List Nat) (
   simp only [World.set] at hrun2 ⊢
   rw [hrun2]
 
+theorem fairRoundsT_one {draws : List Nat} {alt : P.Alt} {s s1 : FairState P}
+    (e1 : fairRoundT draws alt s = some s1) : fairRoundsT draws alt 1 s = some s1 := by
+  simp [fairRoundsT, e1]
+
+theorem fairRoundsT_two {draws : List Nat} {alt : P.Alt} {s s1 s2 : FairState P}
+    (e1 : fairRoundT draws alt s = some s1) (e2 : fairRoundT draws alt s1 = some s2) :
+    fairRoundsT draws alt 2 s = some s2 := by
+  simp [fairRoundsT, e1, e2]
+
+theorem fairRoundsT_then {draws : List Nat} {alt : P.Alt} {j k : Nat} {s s1 s2 : FairState P}
+    (e1 : fairRoundsT draws alt j s = some s1) (e2 : fairRoundsT draws alt k s1 = some s2) :
+    fairRoundsT draws alt (j + k) s = some s2 := by
+  rw [fairRoundsT_add, e1]; exact e2
+
 end Tw.NetSim
